@@ -28,6 +28,10 @@ pub struct Out {
     pub orig: String,
     /// client histories are judged by the history-independence monitor
     pub metamorphic: bool,
+    /// monitor failures written out in full (the rest is only counted: a change that makes
+    /// every call of a 65 537-call history fail must not produce gigabytes of replay lines)
+    pub m_printed: u64,
+    pub m_bytes: u64,
 }
 
 impl Out {
@@ -46,6 +50,8 @@ impl Out {
             quiet: false,
             monitored: false,
             orig: String::new(),
+            m_printed: 0,
+            m_bytes: 0,
         }
     }
 
@@ -88,8 +94,13 @@ impl Out {
         self.monitor_checks += 1;
         if !ok {
             self.monitor_failures += 1;
+            if self.m_printed >= 400 || self.m_bytes >= (64 << 20) {
+                return;
+            }
             let prop = self.prop.clone();
             let d = detail().replace(['\t', '\n'], " ");
+            self.m_printed += 1;
+            self.m_bytes += (d.len() + line.len()) as u64;
             let _ = writeln!(self.w, "M\t{prop}\t{d}\t{line}");
         }
     }
